@@ -702,7 +702,185 @@ fn stmt_case(r: &mut Rng, model: &mut model::Model, rep: &mut Report, probe: Opt
     }
 }
 
+// ---------------------------------------------------------------- 4. statements that change several (FK-related) tables
+
+const FK_TABLES: [&str; 5] = ["P", "C", "G", "N", "Q"];
+
+fn fk_build(grants: &[(P, &'static str)]) -> (Db, Vec<String>, Vec<String>) {
+    let mut db = Db::new();
+    db.keep_log = false;
+    let mut script = vec![];
+    for s in [
+        "CREATE TABLE p (id INTEGER PRIMARY KEY, v VARCHAR(10))",
+        "CREATE TABLE c (id INTEGER PRIMARY KEY, pid INTEGER, FOREIGN KEY (pid) REFERENCES p(id) ON DELETE CASCADE)",
+        "CREATE TABLE g (id INTEGER, cid INTEGER, FOREIGN KEY (cid) REFERENCES c(id) ON DELETE CASCADE)",
+        "CREATE TABLE n (id INTEGER, pid INTEGER, FOREIGN KEY (pid) REFERENCES p(id) ON DELETE SET NULL)",
+        "CREATE TABLE q (id INTEGER PRIMARY KEY, v VARCHAR(10))",
+        "INSERT INTO p VALUES (1, 'a'), (2, 'b'), (3, 'c')",
+        "INSERT INTO c VALUES (10, 1), (20, 2), (30, 3)",
+        "INSERT INTO g VALUES (100, 10), (200, 20)",
+        "INSERT INTO n VALUES (5, 1), (6, 2)",
+        "INSERT INTO q VALUES (7, 'q')",
+        "CREATE ROLE r1",
+    ] {
+        db.must(s);
+        script.push(s.to_string());
+    }
+    let mut items: Vec<String> = FK_TABLES.iter().map(|t| format!("(table {})", hx(t))).collect();
+    items.push(format!("(createrole {})", hx("R1")));
+    for (p, t) in grants {
+        let sql = format!("GRANT {} ON {} TO r1", p.sql(), t);
+        db.must(&sql);
+        script.push(sql);
+        items.push(format!("(grant {} ({}) {} ({}) 0)", hx("PUBLIC"), p.sx(), hx(&t.to_uppercase()), hx("R1")));
+    }
+    (db, items, script)
+}
+
+fn fk_state(db: &Db) -> BTreeMap<&'static str, Option<Vec<String>>> {
+    FK_TABLES.iter().map(|t| (*t, db.scan(t).map(|r| canon::bag_vec(&r)))).collect()
+}
+
+fn fk_case(r: &mut Rng, model: &mut model::Model, rep: &mut Report, fixed: Option<(Vec<(P, &'static str)>, usize)>, sample: bool) {
+    // (sql, model statement, is a DELETE on an FK parent)
+    let shapes: Vec<(&str, String, bool)> = vec![
+        ("TRUNCATE TABLE p CASCADE", format!("(truncate {} {} {} {})", hx("G"), hx("C"), hx("N"), hx("P")), false),
+        ("TRUNCATE TABLE c CASCADE", format!("(truncate {} {})", hx("G"), hx("C")), false),
+        ("TRUNCATE TABLE p RESTRICT", format!("(truncate {})", hx("P")), false),
+        ("TRUNCATE TABLE p", format!("(truncate {})", hx("P")), false),
+        ("TRUNCATE TABLE q", format!("(truncate {})", hx("Q")), false),
+        ("TRUNCATE TABLE g", format!("(truncate {})", hx("G")), false),
+        ("TRUNCATE TABLE q, g", format!("(truncate {} {})", hx("Q"), hx("G")), false),
+        ("TRUNCATE TABLE g, n, q", format!("(truncate {} {} {})", hx("G"), hx("N"), hx("Q")), false),
+        ("DELETE FROM p WHERE id = 1", format!("(delete {} none)", hx("P")), true),
+        ("DELETE FROM p", format!("(delete {} none)", hx("P")), true),
+        ("DELETE FROM c WHERE id = 10", format!("(delete {} none)", hx("C")), true),
+        ("DELETE FROM g WHERE id = 100", format!("(delete {} none)", hx("G")), false),
+        ("UPDATE p SET id = id + 10 WHERE id = 1", format!("(update {} none)", hx("P")), false),
+        ("UPDATE n SET pid = 3 WHERE id = 5", format!("(update {} none)", hx("N")), false),
+        ("DROP TABLE q", format!("(truncate {})", hx("Q")), false),
+        ("DROP TABLE g", format!("(truncate {})", hx("G")), false),
+        ("INSERT INTO q SELECT * FROM p", format!("(insert {} (t {}))", hx("Q"), hx("P")), false),
+        ("INSERT INTO g VALUES (300, 30)", format!("(insert {} none)", hx("G")), false),
+    ];
+    let (grants, k) = match fixed {
+        Some(x) => x,
+        None => {
+            let mut g: Vec<(P, &'static str)> = vec![];
+            for t in ["p", "c", "g", "n", "q"] {
+                match r.below(6) {
+                    0 => {}
+                    1 | 2 => g.push((P::All, t)),
+                    3 => g.push((P::Del, t)),
+                    4 => {
+                        g.push((P::Sel, t));
+                        g.push((P::Ins, t))
+                    }
+                    _ => {
+                        g.push((P::Sel, t));
+                        g.push((P::Upd, t));
+                    }
+                }
+            }
+            (g, r.below(shapes.len() as u64) as usize)
+        }
+    };
+    let (sql, stmt_sx, parent_delete) = (&shapes[k].0, &shapes[k].1, shapes[k].2);
+    let (mut db, mut items, script) = fk_build(&grants);
+    db.db.enable_security();
+    db.db.set_role(Some("R1".into()));
+    let holds = |db: &Db, t: &str, p: &PrivilegeType| db.db.catalog.has_privilege("R1", t, p);
+    let pre = fk_state(&db);
+    let out = db.exec(sql);
+    let post = fk_state(&db);
+    items.push(format!("(auth 1 {} {})", hx("R1"), stmt_sx));
+    let reply = model.ask(&format!("script {}", items.join(" ")));
+    let verdict = model_items(&reply).and_then(|v| v.last().cloned()).unwrap_or_default();
+    rep.traces_validated += 1;
+    let replay = || format!("{};\n-- enable_security; set_role(R1)\n{};\n-- outcome: {}\n-- model: {}\n-- before: {:?}\n-- after:  {:?}", script.join(";\n"), sql, out.brief(), verdict, pre, post);
+    rep.count(&format!("fk_shape_{}", sql.split_whitespace().take(2).collect::<Vec<_>>().join("_").to_lowercase()));
+    rep.count(if out.is_ok() { "fk_outcome_executed" } else if denied_detail(&out).is_some() { "fk_outcome_permission_denied" } else { "fk_outcome_other_error" });
+    let partial = FK_TABLES.iter().any(|t| holds(&db, t, &PrivilegeType::Delete)) && FK_TABLES.iter().any(|t| !holds(&db, t, &PrivilegeType::Delete));
+    rep.case(&format!("fk {} | {}", script[11..].join(";"), sql), partial);
+    if sample {
+        rep.sample(serde_json::json!({"kind": "statement over FK-related tables", "grants": script[11..].to_vec(), "statement": sql, "model": verdict, "engine": out.brief().chars().take(90).collect::<String>()}));
+    }
+    if out.is_panic() {
+        rep.fail(FailKind::Oracle, None, "engine panicked", &replay());
+        return;
+    }
+    // ---- direct oracle: rows of a table change only with the matching privilege on THAT table;
+    //      a failing statement changes nothing
+    if !out.is_ok() && pre != post {
+        rep.fail(FailKind::Oracle, None, "a statement that failed changed table contents", &replay());
+    }
+    for t in FK_TABLES {
+        if pre[t] == post[t] {
+            continue;
+        }
+        let need: Option<PrivilegeType> = match (&pre[t], &post[t]) {
+            (Some(_), None) => Some(PrivilegeType::Delete),
+            (Some(a), Some(b)) => {
+                let (added, removed) = delta(a, b);
+                if !removed.is_empty() && added.is_empty() {
+                    Some(PrivilegeType::Delete)
+                } else if !added.is_empty() && removed.is_empty() {
+                    Some(PrivilegeType::Insert(None))
+                } else {
+                    Some(PrivilegeType::Update(None))
+                }
+            }
+            _ => None,
+        };
+        if let Some(p) = need {
+            if !holds(&db, t, &p) {
+                // recorded finding: the referential action of a DELETE on the parent (the role
+                // holds DELETE on the statement's own target) changes a descendant table
+                let target = sql.split_whitespace().nth(2).unwrap_or("").to_uppercase();
+                let sig = if parent_delete && t != target && holds(&db, &target, &PrivilegeType::Delete) && ["C", "G", "N"].contains(&t) {
+                    Some("C26/fk-referential-action-unchecked")
+                } else {
+                    None
+                };
+                rep.fail(FailKind::Oracle, sig, &format!("rows of a table were changed by a role without the matching privilege on that table ({:?} on {})", p, t), &replay());
+            }
+        }
+    }
+    // ---- model vs code
+    let denied = denied_detail(&out);
+    match verdict.as_str() {
+        "done" => {
+            if denied.is_some() {
+                rep.fail(FailKind::ModelDiff, None, "engine refuses a multi-table statement for which the role holds every needed privilege", &replay());
+            }
+        }
+        v if v.starts_with("(denied") => {
+            if out.is_ok() {
+                rep.fail(FailKind::ModelDiff, None, "model denies (a needed privilege on one of the tables is missing) but the engine executed the statement", &replay());
+            } else if let Some((privilege, object)) = &denied {
+                let p = match privilege.as_str() {
+                    "select" => PrivilegeType::Select(None),
+                    "insert" => PrivilegeType::Insert(None),
+                    "update" => PrivilegeType::Update(None),
+                    _ => PrivilegeType::Delete, // "delete" and check_drop's "drop"
+                };
+                if holds(&db, object, &p) {
+                    rep.fail(FailKind::ModelDiff, None, "engine's PermissionDenied names a privilege the role holds", &replay());
+                }
+            } else {
+                rep.count("fk_model_denies_engine_fails_otherwise");
+            }
+        }
+        _ => rep.fail(FailKind::ModelDiff, None, "unexpected model reply", &format!("{}\nmodel reply: {}", replay(), reply)),
+    }
+}
+
 fn main() {
+    // every SelectExecutor (one per query and per evaluated subquery) allocates a zeroed 10 MB arena;
+    // keep such blocks on mmap so that glibc hands out fresh zero pages instead of memset-ing 10 MB each time
+    unsafe {
+        libc::mallopt(libc::M_MMAP_THRESHOLD, 1 << 20);
+    }
     engine::silence_panics();
     let args = Args::parse("C26");
     let mut rep = Report::new(
@@ -751,6 +929,25 @@ fn main() {
             let mut r = rng.fork();
             stmt_case(&mut r, &mut model, &mut rep, Some((hist, s.clone(), role, sec)), false);
         }
+    }
+
+    // ---- statements over FK-related tables: probes (privileges on the parent only / all but one
+    //      descendant / everything / SELECT only / children only) × every shape, then generated sets
+    for k in 0..18 {
+        for grants in [
+            vec![(P::All, "p")],
+            vec![(P::All, "p"), (P::All, "c"), (P::All, "n"), (P::All, "q")],
+            vec![(P::All, "p"), (P::All, "c"), (P::All, "g"), (P::All, "n"), (P::All, "q")],
+            vec![(P::Sel, "p"), (P::Sel, "c"), (P::Sel, "g"), (P::Sel, "n"), (P::Sel, "q")],
+            vec![(P::All, "c"), (P::All, "g"), (P::All, "q")],
+        ] {
+            let mut r = rng.fork();
+            fk_case(&mut r, &mut model, &mut rep, Some((grants, k)), false);
+        }
+    }
+    for i in 0..args.n(400, 4000) {
+        let mut r = rng.fork();
+        fk_case(&mut r, &mut model, &mut rep, None, i < 2);
     }
 
     // ---- generated
